@@ -326,6 +326,17 @@ def judge(ctx: Ctx, r: Dict[str, Any], origin: str) -> List[str]:
     return bad
 
 
+def kf_index_collision(w: Dict[str, Any]) -> bool:
+    """Known finding: several roots, one of them a module or package named 'index': its page and the project index (IndexPage) want
+    the same file name index.html, the module's page is written last.  Matches only IndexIsTheIndex in a complete run whose roots
+    are several and include 'index'."""
+    if w.get("failed") != ["IndexIsTheIndex"] or not w.get("collision"):
+        return False
+    h = w.get("origin", {}).get("history") or []
+    k = w.get("run", 0)
+    return 0 < k <= len(h) and len(h[k - 1]["roots"]) > 1 and "index" in h[k - 1]["roots"] and h[k - 1]["mode"] == "full"
+
+
 def ast_depth(src: str) -> int:
     """Nesting depth of the AST, computed without recursion (0 if the text does not parse)."""
     import ast
@@ -452,6 +463,17 @@ def run(ctx: Ctx) -> int:
         o = routs[0]
         ctx.sample({"kind": o["job"]["kind"], "docformat": o["job"]["docformat"], "W": o["W"], "files": list(o["job"]["files"]),
                     "events": [[e["k"], e["m"]] for e in o["ev"]][:14], "exit": o["code"]})
+    # ---- histories of runs into one output directory (OutDir.tla, every history replayed)
+    from .. import outdircheck
+    ctx.register_matcher("root-module-named-index-among-several-roots", kf_index_collision)
+    if ctx.quick:
+        ctx.extra["outdir"] = outdircheck.run(ctx, 2, [["a"], ["a", "b"], ["index"]], ["full", "summary", "subject"], ["link", "pages"])
+        one = outdircheck.run(ctx, 1, [["index", "b"]], ["full", "summary"], [], negative=False)
+    else:
+        ctx.extra["outdir"] = outdircheck.run(ctx, 2, [["a"], ["b"], ["a", "b"], ["index"], ["index", "b"]], ["full", "summary", "subject"],
+                                              ["summ", "link", "pages", "inv"])
+        one = outdircheck.run(ctx, 3, [["a"], ["a", "b"], ["index"]], ["full", "summary", "subject"], ["link", "pages"])
+    ctx.extra["outdir"] = {k: v + one[k] for k, v in ctx.extra["outdir"].items()}
     # ---- negative control: a run cut before the inventory must be rejected by TLC
     good = next((t for t in traces if t["ev"] and t["ev"][-1]["k"] == "exit"), None)
     if good is None:
@@ -473,6 +495,14 @@ def run(ctx: Ctx) -> int:
 
 def replay(ctx: Ctx, path: str) -> int:
     w = json.load(open(path))
+    if w.get("origin", {}).get("family") == "outdir":
+        from .. import outdircheck
+        bad = outdircheck.replay_witness(ctx, w["origin"]["history"])
+        print("replay:", "still violated: " + ",".join(bad) if bad else "holds now")
+        if bad:
+            print(f"VIOLATION property=C01 replay={path}")
+        ctx.cleanup()
+        return 1 if bad else 0
     job = dict(w["job"])
     job["scratch"] = str(ctx.scratch)
     o = _worker(job)
